@@ -25,7 +25,10 @@ RULE = ("history: 11 operations (same primary / secondary moved by 1e-4 deg "
         "the primary's points in another order, primary moved, roles swapped, a "
         "larger primary, that primary moved, magnitude_factor 1 with a "
         "larger secondary, the single pair (first, first), one point "
-        "against two points next to it) on one reused Collocator: every "
+        "against two points next to it; the one with the primary's points "
+        "in another order has leaf_size 1 and the thresholds as '5000 m' / "
+        "timedelta, all others the default configuration) on one reused "
+        "Collocator: every "
         "sequence of length 1..3 (thorough 1..4), then BFS to the fixpoint "
         "of the abstract graph.")
 
@@ -48,10 +51,11 @@ SETS = {
     # X given in the other order (the same points): the index still fits
     "Xr": ((11, 6, 10.027, 0.0), (10, 0, 10.0, 0.0)),
 }
-# (primary, secondary, magnitude_factor)
-OPS = (("X", "Y", 10), ("X", "Y'", 10), ("X'", "Y", 10), ("Y", "X", 10),
-       ("Z", "Y", 10), ("Z'", "Y", 10), ("Y'", "Z", 1), ("W", "W", 10),
-       ("W", "W2", 10), ("X", "Yl", 10), ("Xr", "Y", 10))
+# (primary, secondary, deviations from the default configuration)
+OPS = (("X", "Y", {}), ("X", "Y'", {}), ("X'", "Y", {}), ("Y", "X", {}),
+       ("Z", "Y", {}), ("Z'", "Y", {}), ("Y'", "Z", dict(mf=1)),
+       ("W", "W", {}), ("W", "W2", {}), ("X", "Yl", {}),
+       ("Xr", "Y", dict(leaf=1, thr="m+timedelta")))
 INITIAL = (None, False)
 
 
@@ -65,19 +69,20 @@ def shards(tier):
 
 
 def cfg_of(op):
-    return dict(model.DEFAULT, mf=OPS[op][2])
+    return dict(model.DEFAULT, **OPS[op][2])
 
 
 def datasets(op):
     a, b, _ = OPS[op]
-    ds1, pts1 = model.build(("X", SETS[a]), None, "obs")
-    ds2, pts2 = model.build(("X", SETS[b]), None, "spot")
+    ds1, pts1, _ = model.build(("X", SETS[a]), None, "obs")
+    ds2, pts2, _ = model.build(("X", SETS[b]), None, "spot")
     return ds1, pts1, ds2, pts2
 
 
 def expectation(op):
     _, pts1, _, pts2 = datasets(op)
-    return model.expected(pts1, pts2, 5000, 10)
+    return model.expected(pts1, pts2,
+                          *model.THRESHOLDS[cfg_of(op)["thr"]][2:])
 
 
 def step(collocator, state, op):
